@@ -6,9 +6,10 @@ from gen import *
 from sessions import validate_cases
 
 EMACS_ITEMS = [b"a", b"b", b" ", b'"', b"'", b"\\", b"\x01", b"\x05", b"\x0b", b"\x19", b"\x1bb", b"\x1bf", b"\x1bd", b"\x1b[D", b"\x1b[C",
-               b"\x18\x18", b"\x7f", b"\x17", b"\x1b2", b"\x14", b"\x1bu", b"\x11x", b"\x1b\x7f", b"\x02", b"\x06", b"-", b"#"]
+               b"\x18\x18", b"\x7f", b"\x17", b"\x1b2", b"\x14", b"\x1bu", b"\x11x", b"\x1b\x7f", b"\x02", b"\x06", b"-", b"#",
+               b"\x1bB", b"\x1bF", b"\x1f", b"\x18\x15", b"\x1b[Z", b"\x1bq", b"\x0f"]
 VI_ITEMS = [b"h", b"l", b"w", b"b", b"x", b"fa", b"tb", b"dw", b"~", b"rz", b"0", b"$", b"P", b"iq\x1bl", b"A\\\x1bh", b"a'\x1b0", b"D",
-            b"yw", b"e", b"cwZ\x1bl"]
+            b"yw", b"e", b"cwZ\x1bl", b";a", b",b", b"0tax;z", b"u", b"ta", b"ix\x1b", b"iy\x1b\x1b", b"2", b"p"]
 
 
 def model_check(rep, tier, wd):
@@ -26,16 +27,8 @@ def model_check(rep, tier, wd):
 
 
 def split_vi(ks):
-    """deliver one key per read, but never end a read directly after ESC in Vi mode"""
-    out, i = [], 0
-    while i < len(ks):
-        if ks[i:i + 1] == b"\x1b" and i + 1 < len(ks):
-            out.append(ks[i:i + 2])
-            i += 2
-        else:
-            out.append(ks[i:i + 1])
-            i += 1
-    return out
+    """deliver one key per read (typing)"""
+    return [ks[i:i + 1] for i in range(len(ks))]
 
 
 def run(rep, tier, seed):
@@ -57,10 +50,9 @@ def run(rep, tier, seed):
     ci = 0
     for style in ("emacs", "vi"):
         for chunk in chunks(words[style], 25):
-            cs = {"id": "c18-%s-%d" % (style, ci), "inputrc": "set editing-mode vi\n" if style == "vi" else "", "w": 80, "h": 24, "prompt": "> ",
+            cs = {"id": "c18-%s-%d" % (style, ci), "inputrc": ("set editing-mode vi\n" if style == "vi" else "") + '"\\C-o": "xy "\n', "w": 80, "h": 24, "prompt": "> ",
                   "setups": [], "sessions": [], "wrap": "none"}
             ci += 1
-            sess = []
             pairs = []
             for w in chunk:
                 K = b"".join(w)
@@ -72,10 +64,14 @@ def run(rep, tier, seed):
                 if style == "vi" and buf:
                     cur = min(cur, len(buf) - 1)
                 for variant in ("typed", "replayed"):
+                    # one Readline call per variant: both start from the same (empty) undo history
+                    sess = []
+                    cs["sessions"].append(sess)
                     cs["setups"].append(setup(buf, cur, mode, kill="KK"))
                     sess.append(SETUP_KEY)
+                    # both variants record K; one then replays the macro, the other types K again
                     if variant == "typed":
-                        seq = [K, K]
+                        seq = [b"\x18(", K, b"\x18)", K] if style == "emacs" else [b"q" + reg.encode(), K, b"q", K]
                     elif style == "emacs":
                         seq = [b"\x18(", K, b"\x18)", b"\x18e"]
                     else:
@@ -88,7 +84,6 @@ def run(rep, tier, seed):
                                 sess.append(keys(ch))
                     sess.append({"k": "gate"})
                 pairs.append({"K": K.hex(), "buf": buf, "cur": cur, "style": style, "paste": paste})
-            cs["sessions"].append(sess)
             cases.append(cs)
             meta[cs["id"]] = pairs
     log("C18: %d macro scripts in %d cases" % (sum(len(v) for v in words.values()), len(cases)))
@@ -132,11 +127,16 @@ def run(rep, tier, seed):
     rep.traces = rep.evaluations
     c0 = cases[0]["id"]
     rep.samples = [{"K": meta[c0][i]["K"], "line": per[c0][i][0]} for i in range(min(3, len(per[c0])))]
-    rejected = validate_cases(rep, os.path.join(wd, "tv"), "MacroTrace", "MacroTrace.cfg", per, label="MacroTrace", max_rejects=6)
+    rejected = validate_cases(rep, os.path.join(wd, "tv"), "MacroTrace", "MacroTrace.cfg", per, label="MacroTrace", max_rejects=40)
     cmap = {c["id"]: c for c in cases}
+    kfs = open_findings(rep.pid)
     for cid, (i, ln, raw, viol) in rejected.items():
         m = raw.get("meta", {}) if isinstance(raw, dict) else {}
-        rep.violation("macro %r (%s, start %r): typed twice gives %r, recorded + replayed gives %r" %
+        hit = [kf for kf in kfs if "match" in kf and ln.get("ev") == "macro" and all(str(v) in str(m.get(f, "")) for f, v in kf["match"].items())]
+        if hit:
+            rep.known(hit[0]["id"], hit[0]["what"])
+            continue
+        rep.violation("macro %r (%s, start %r): recorded + typed again gives %r, recorded + replayed gives %r" %
                       (bytes.fromhex(m.get("K", "")), m.get("style"), m.get("buf"), "".join(map(chr, ln.get("typed", []))), "".join(map(chr, ln.get("replayed", [])))),
                       {"kind": "macro", "case": cmap[cid], "pairs": meta[cid], "rejected_line": ln, "raw_event": raw})
     rep.rule = ("key scripts K: every word of <= %d items (sampled) plus seeded words of 4..8 items over {letters, quotes, backslash, C-a C-e C-k "
